@@ -74,12 +74,16 @@ P = {
 }
 
 
+# properties whose check has been run green on the unchanged tree and reviewed
+DONE = ["C01", "C08", "C10", "C11", "C12", "C15"]
+
+
 def main():
     props = [json.loads(l) for l in open(os.path.join(V, "properties.jsonl"))]
     checks, na = [], []
     for p in props:
         pid = p["id"]
-        have = os.path.exists(os.path.join(V, "coq/Properties/%s.v" % pid)) and \
+        have = pid in DONE and os.path.exists(os.path.join(V, "coq/Properties/%s.v" % pid)) and \
             os.path.exists(os.path.join(V, "tools/props/%s.py" % pid))
         text, note, tech = P[pid]
         if have:
